@@ -108,6 +108,8 @@ def step_oracle(cfg, path, ob, fp, par, fails):
         st = sorted({GROUP[k] for k in ch if k in STATE})
         de = sorted({GROUP[k] for k in ch if k in DERIVED})
         ba = {k: (par[k], fp[k]) for k in ch[:4]}
+        if 'sampling' in ch:
+            ba['sampling'] = (par['sampling_v'], fp['sampling_v'])
         if 'cost' in ch:       # show the values: each metric as read FIRST on a copy of the model before / after the call
             ba['cost'] = ({k: _fl(v) for k, v in par['costs'].items()}, {k: _fl(v) for k, v in fp['costs'].items()})
         for g in (st or de):
@@ -131,7 +133,9 @@ def step_oracle(cfg, path, ob, fp, par, fails):
         if ch:
             fails.append(('set_spec-changes-%s:%s' % (GROUP[ch[0]], tag), dict(info, changed=ch), 'assigning cost_specification on %s changed %s' % (cfg_name(cfg), ch)))
         # the three specifications give pairwise different cost values on these models: a switch must be visible
-        if spec_after(cfg, path) != spec_after(cfg, path[:-1]) and fp['cost'] == par['cost']:
+        nonzero = any(not str(v).startswith('EXC') and float.fromhex(v) != 0.0 for v in list(par['costs'].values()) + list(fp['costs'].values()))
+        # (a hard selection of a cost-free branch, e.g. Identity with the NAS-only cost, makes every metric 0)
+        if nonzero and spec_after(cfg, path) != spec_after(cfg, path[:-1]) and fp['cost'] == par['cost']:
             fails.append(('set_spec-has-no-effect-on-cost:%s' % tag, info, 'assigning cost_specification %s on %s after %s did not change any cost value' % (op, cfg_name(cfg), list(path[:-1]))))
 
 
@@ -219,7 +223,7 @@ def compare_path(cfg, path, nodes, mres, mism):
             a, b = sts[i], sts[j]
             for nm, ma, mb, key, both in (('params', a[0], b[0], 'params', True), ('rng', a[4], b[4], 'rng', True),
                                           ('sampling options', a[7] if cfg['method'] != 'PIT' else 0, b[7] if cfg['method'] != 'PIT' else 0, 'sampling', True),
-                                          ('buffers', (a[1], a[3] if mps else 0), (b[1], b[3] if mps else 0), 'buffers', j == i + 1 and a[1] != b[1]),
+                                          ('buffers', (a[1], (a[3], a[7][3]) if mps else 0), (b[1], (b[3], b[7][3]) if mps else 0), 'buffers', j == i + 1 and a[1] != b[1]),     # MPS: theta_alpha and temperature are buffers
                                           ('theta', a[3], b[3], 'theta', j == i + 1 and cfg['method'] != 'PIT' and a[3][0] != 'TInit'
                                            and ((b[3][0] == 'TGumbel' and not b[3][3]) or (b[3][0] == 'TSoft' and not b[3][2])))):     # one-hot samples may coincide
                 n += 1
@@ -372,6 +376,8 @@ def replay(r):
         if is_obs(op):
             ch = [k for k in STATE + DERIVED if fp[k] != par[k]]
             print('step %d %-18s -> %-16s changed: %s' % (i + 1, op, str(res['obs'][i])[:16], ch or 'nothing'))
+            if 'sampling' in ch:
+                print('        sampling options before: %s  after: %s' % (par['sampling_v'], fp['sampling_v']))
             if 'cost' in ch:
                 print('        cost values (each read first on a copy) before: %s  after: %s' % ({k: _fl(v) for k, v in par['costs'].items()}, {k: _fl(v) for k, v in fp['costs'].items()}))
             bad += bool(ch)
